@@ -7,7 +7,7 @@ CONSTANTS
   PostKind <- C_PostKind
   BroadcastTimeout <- C_BroadcastTimeout
   CheckDelay <- C_CheckDelay
-  BroadcastBounded = TRUE
+  BroadcastBounded = FALSE
   ClaimEndMargin <- C_ClaimEndMargin
   AttemptsLimit <- C_AttemptsLimit
   AnnounceDelay <- C_AnnounceDelay
@@ -19,5 +19,5 @@ CONSTANTS
   Interlude <- C_Interlude
   MaxMessages = 2
   LoopBoundToCaller = TRUE
-  Starts <- QuickStarts
-INVARIANTS TypeOK NoUnderflow SigningStartsAfterStart SigningEndsBeforeMargin LoopFits NoAnnouncementAfterDeadline SignReturnsByDeadline AttemptWindow PostEndsBeforeExpiry BroadcastLoopBounded
+  Starts <- BatchStarts
+INVARIANTS BroadcastLoopBounded
